@@ -301,6 +301,54 @@ func TestC19(t *testing.T) {
 			r.Floor("openssl_resumed_tls12", 5)
 		}
 	}
+	// ONE spec object for consecutive connections over a shared cache (sequentially): the
+	// session an earlier connection attached to the spec's session extension must not be in
+	// the way of the next one
+	{
+		pskParrots := []string{"Chrome_100_PSK", "Chrome_112_PSK_Shuf", "Chrome_114_Padding_PSK_Shuf", "Chrome_115_PQ_PSK"}
+		var shared []Target
+		for _, pn := range pskParrots {
+			if p := ParrotByName(pn); p.Name != "" {
+				shared = append(shared, SharedSpecTarget(Target{Name: p.Name, ID: p.ID}))
+			}
+		}
+		shared = append(shared, SharedSpecTargets()...)
+		for _, tg := range shared {
+			for _, maxv := range []uint16{tls.VersionTLS13, tls.VersionTLS12} {
+				cache := tls.NewLRUClientSessionCache(4)
+				scfg := peer.ServerConfig()
+				scfg.MaxVersion = maxv
+				prev := false
+				for k := 0; k < 4; k++ {
+					h := RunCase(tg, GridCase{Server: scfg}, "example.test", func(c *tls.Config) {
+						c.ClientSessionCache = cache
+						c.PreferSkipResumptionOnNilExtension = true // documented switch for specs without the session extension
+					}, peer.Opts{})
+					rep := map[string]any{"target": tg.Name, "connection": k, "server_max": maxv, "err": h.ErrString()}
+					if h.ClientPanic != "" {
+						r.Violation(map[string]string{"kind": "panic", "target": family(tg.Name), "mode": "reused_spec"}, fmt.Sprintf("%s connection %d with the same spec object: %s", tg.Name, k, firstLine(h.ClientPanic)), rep)
+						break
+					}
+					if !h.OK() {
+						if allowed, class := classifyFailure(h); !allowed {
+							r.Violation(map[string]string{"kind": "reused_spec_connection_fails", "target": family(tg.Name)}, fmt.Sprintf("%s connection %d with the same spec object fails (%s): %s", tg.Name, k, class, h.ErrString()), rep)
+						}
+						break
+					}
+					if k > 0 && prev && !h.CState.DidResume {
+						// the connection before resumed or completed with a ticket-capable spec; a later one that does not is the no-resume class below
+						r.Count("reused_spec_not_resumed_after_resumed", 1)
+					}
+					if h.CState.DidResume {
+						r.Count("reused_spec_resumed", 1)
+						prev = true
+					}
+					r.Case(fmt.Sprintf("%s|%04x|conn%d|resumed=%v", tg.Name, maxv, k, h.CState.DidResume), true)
+				}
+			}
+		}
+		r.Floor("reused_spec_resumed", 20)
+	}
 	r.Floor("resumed", 40)
 	r.Floor("mixed_resumed", 20)
 }
